@@ -633,11 +633,26 @@ pub fn bnd_tables() {
         "<table><tr><td>a1</td><td>b2</td><td>c3</td></tr><tr><td colspan=3>uu vv ww xx yy zz uu vv ww xx</td></tr><tr><td>d4</td><td>e5</td><td>f6</td></tr></table>",
         // many equal columns whose minimum widths add up to more than a narrow page (the shrink loop takes one column at a time)
         "<table><tr><td>tokena</td><td>tokenb</td><td>tokenc</td><td>tokend</td><td>tokene</td><td>tokenf</td></tr><tr><td>a1</td><td>b2</td><td>c3</td><td>d4</td><td>e5</td><td>f6</td></tr></table>",
-        "<table><tr><td>aa bb cc</td><td>dd</td><td>ee ff gg hh</td><td>ii</td><td>jj kk</td><td>ll</td><td>mm nn oo</td><td>pp</td></tr></table>"];
+        "<table><tr><td>aa bb cc</td><td>dd</td><td>ee ff gg hh</td><td>ii</td><td>jj kk</td><td>ll</td><td>mm nn oo</td><td>pp</td></tr></table>",
+        // row groups out of display order stay in source order
+        "<table><tfoot><tr><td>f1</td><td>f2</td></tr></tfoot><tbody><tr><td>b3</td><td>b4</td></tr></tbody></table>",
+        "<table><tr><td>r1</td></tr><thead><tr><th>h2</th></tr></thead><tfoot><tr><td>f3</td></tr></tfoot><tbody><tr><td>b4</td></tr></tbody></table>"];
     for ti in 0..ntab as usize + extras.len() {
         let mut tok = 0;
         let html0 = if ti < extras.len() { extras[ti].to_string() } else { gen_table(&mut r, 0, &mut tok) };
         let want = content_chars(&html0);
+        // raw mode: the whole document keeps document order (rows in source order whatever their group, cells left to right)
+        {
+            let want_seq: String = { let mut o = String::new(); let mut intag = false; for ch in html0.chars() { if ch == '<' { intag = true; } else if ch == '>' { intag = false; } else if !intag && !ch.is_whitespace() { o.push(ch); } } o };
+            let input = format!("width=60 raw_mode html={}", html0);
+            rep.case(&input);
+            let h = html0.clone();
+            match panic::catch_unwind(move || config::plain().raw_mode(true).string_from_read(h.as_bytes(), 60)) {
+                Err(_) => rep.found(&input, "panic"),
+                Ok(Err(_)) => {}
+                Ok(Ok(o)) => { let got: String = o.chars().filter(|c| !c.is_whitespace()).collect(); if got != want_seq { rep.found(&input, &format!("raw mode: cell characters in document order {:?} but output characters {:?}", want_seq, got)); } }
+            }
+        }
         // every fifth table sits in a quote or a list item: the same table, two columns to the right
         let (html, pfx1, pfxn): (String, &str, &str) = match ti % 10 { 3 => (format!("<blockquote>{}</blockquote>", html0), "> ", "> "), 8 => (format!("<ul><li>{}</li></ul>", html0), "* ", "  "), _ => (html0.clone(), "", "") };
         for w in 1..=maxw {
@@ -1006,6 +1021,123 @@ pub fn bnd_c20() {
 }
 
 // ------------------------------------------------------------------------------------------------------------------------------
+// C01 over colour values (src/css/parser.rs parse_color and the legacy colour attributes): every string of at most N pieces.
+pub fn c01_colours() {
+    let pieces = ["#", "a", "F", "0", "9", "g", "\u{e9}", "\\\u{e9}", "\\e9 ", "\\", " ", "\u{4e2d}", "rgb(", ")", ",", "%", "-", "1", "255", "red", "!important", "\u{200b}"];
+    let maxlen = if thorough() { 4 } else { 3 };
+    let mut rep = Report::new("c01_colours", &format!("every concatenation of at most {} of {} pieces of colour values (hash, hex digits in both cases, a non-hex letter, non-ASCII characters raw and as CSS escapes, a lone backslash, \
+        rgb( ) , % - numbers, a colour name, !important, zero-width space), prefixed with nothing or '#', as the value of color / background-color in a style attribute and in a style sheet (add_css), and as the legacy color / bgcolor attribute; \
+        plus '#' followed by every string of 3 and 6 characters over (a, 0, \u{e9}, escaped \u{e9}): no panic", maxlen, pieces.len()));
+    let mut vals: Vec<String> = vec![];
+    let mut idx = vec![0usize; 1];
+    loop {
+        let v: String = idx.iter().map(|&i| pieces[i]).collect();
+        vals.push(v.clone()); vals.push(format!("#{}", v));
+        let mut k = 0;
+        while k < idx.len() { idx[k] += 1; if idx[k] < pieces.len() { break; } idx[k] = 0; k += 1; }
+        if k == idx.len() { if idx.len() == maxlen { break; } idx.push(0); }
+    }
+    // hash values of the two accepted lengths with multi-byte members at every position
+    let hx = ["a", "0", "\u{e9}", "\\\u{e9}"];
+    for n in [3usize, 6] { let mut ix = vec![0usize; n]; loop {
+        vals.push(format!("#{}", ix.iter().map(|&i| hx[i]).collect::<String>()));
+        let mut k = 0; while k < n { ix[k] += 1; if ix[k] < hx.len() { break; } ix[k] = 0; k += 1; } if k == n { break; }
+    }}
+    for v in &vals {
+        let input = format!("value={:?}", v);
+        rep.case(&input);
+        let esc_attr = v.replace('&', "&amp;").replace('"', "&quot;");
+        let html = format!("<p style=\"color: {0}; background-color: {0}\">x <font color=\"{0}\">y</font></p><table bgcolor=\"{0}\"><tr><td bgcolor=\"{0}\">z</td></tr></table>", esc_attr);
+        let css = format!("p {{ color: {0}; }} td {{ background-color: {0} }}", v);
+        let (h1, c1) = (html.clone(), css.clone());
+        if panic::catch_unwind(move || { let _ = config::rich().use_doc_css().lines_from_read(h1.as_bytes(), 20); }).is_err() { rep.found(&input, "panic (style and colour attributes, use_doc_css)"); continue; }
+        if panic::catch_unwind(move || { if let Ok(c) = config::rich().add_css(&c1) { let _ = c.lines_from_read("<p>x</p><table><tr><td>z</td></tr></table>".as_bytes(), 20); } }).is_err() { rep.found(&input, "panic (add_css)"); }
+    }
+    rep.finish();
+}
+
+// ------------------------------------------------------------------------------------------------------------------------------
+// C20 on documents the parser restructures (mis-nested formatting elements: adoption agency; content misplaced in tables: foster
+// parenting).  The reference matcher walks the parsed tree from the document node down (children only); the crate's matcher walks
+// up through the parent links.  Both must designate the same elements, and every child must name its parent (what SM assumes).
+pub fn c20_adoption() {
+    let docs = ["<b>k1<p>k2<span>k3</span></b>k4</p>", "<i>k1<div>k2<i>k3</i></i>k4</div>k5", "<a href=\"u\">k1<p>k2<em>k3</em></a>k4</p>",
+                "<table><tr><td>k1</td></tr><span>k2</span></table>", "<b>k1<i>k2</b>k3</i>k4", "<p>k1<b>k2<p>k3</b>k4</p>",
+                "<em>k1<blockquote>k2<span>k3</span></em>k4</blockquote><span>k5</span>", "<b><b><b>k1<div>k2<span>k3</span></b></b></b>k4</div>",
+                "<div>k1<b>k2<div>k3<i>k4<div>k5</b>k6</i>k7</div></div>k8</div>", "<table><tr><b><td>k1</td></b><td><span>k2</span></td></tr></table><span>k3</span>",
+                "<span>k1<ul><li>k2<b>k3<li>k4</b>k5</ul></span>", "<div><span>k1</span><span>k2</span><b>k3<p>k4<span>k5</span><span>k6</span></b>k7</p></div>"];
+    let names = ["b", "i", "p", "span", "div", "em", "a", "td", "li", "blockquote", "*"];
+    let nths: [Option<(i32, i32)>; 4] = [None, Some((0, 1)), Some((0, 2)), Some((2, 1))];
+    let mut rep = Report::new("c20_adoption", &format!("{} documents that the HTML parser restructures (mis-nested b/i/em/a around blocks, content misplaced inside tables, list items closing formatting elements) x selectors of one or two steps \
+        over {} element names / the universal selector, child and descendant combinators, :nth-child(1 | 2 | 2n+1): the tokens coloured by the rule are those designated by a reference matcher that walks the parsed tree top-down; \
+        every child node names as its parent the node whose child list holds it", docs.len(), names.len()));
+    #[derive(Clone)]
+    struct St { name: &'static str, nth: Option<(i32, i32)> }
+    fn st_ok(s: &St, path: &[(String, usize)]) -> bool {
+        if path.len() < 2 { return false; }
+        let (n, idx) = &path[path.len() - 1];
+        if s.name != "*" && s.name != n { return false; }
+        if let Some((a, b)) = s.nth { let i = *idx as i64; let (a, b) = (a as i64, b as i64); let ok = if a == 0 { i == b } else { (i - b) % a == 0 && (i - b) / a >= 0 }; if !ok { return false; } }
+        true
+    }
+    fn sel_ok(steps: &[St], combs: &[char], path: &[(String, usize)]) -> bool {
+        let n = steps.len();
+        if !st_ok(&steps[n - 1], path) { return false; }
+        if n == 1 { return true; }
+        match combs[n - 2] { '>' => path.len() >= 2 && sel_ok(&steps[..n - 1], &combs[..n - 2], &path[..path.len() - 1]), _ => (1..path.len()).any(|l| sel_ok(&steps[..n - 1], &combs[..n - 2], &path[..l])) }
+    }
+    for d in docs {
+        // the parsed tree, top-down: (path of (name, index among element siblings), tokens directly inside)
+        let dom = match config::plain().parse_html(d.as_bytes()) { Ok(x) => x, Err(_) => continue };
+        let mut elems: Vec<(Vec<(String, usize)>, Vec<String>)> = vec![];
+        let mut bad_links: Vec<String> = vec![];
+        {
+            // explicit stack: (node, path)
+            let mut stack = vec![(dom.document.clone(), vec![("#document".to_string(), 1usize)])];
+            while let Some((node, path)) = stack.pop() {
+                let mut toks = vec![]; let mut eidx = 0usize;
+                for c in node.children.borrow().iter() {
+                    match c.get_parent() { Some(p) if std::rc::Rc::ptr_eq(&p, &node) => {}, _ => bad_links.push(format!("a child of <{}> ({}) does not name it as its parent", path[path.len() - 1].0, html2text::RcDom::node_as_dom_string(c).lines().next().unwrap_or("").trim())) }
+                    match c.element_name() {
+                        Some(n) => { eidx += 1; let mut p2 = path.clone(); p2.push((n, eidx)); stack.push((c.clone(), p2)); }
+                        None => { let t = html2text::RcDom::node_as_dom_string(c); if let Some(x) = t.trim().strip_prefix("Text:") { for w in x.split_whitespace() { toks.push(w.to_string()); } } }
+                    }
+                }
+                elems.push((path, toks));
+            }
+        }
+        { let input = format!("html={}", d); rep.case(&input); for b in &bad_links { rep.found(&input, &format!("parent link: {}", b)); } }
+        let mut sels: Vec<(Vec<St>, Vec<char>)> = vec![];
+        for n1 in names { for t1 in nths { sels.push((vec![St { name: n1, nth: t1 }], vec![])); } }
+        for n1 in names { for n2 in names { for c in ['>', ' '] { for t2 in nths { if d.contains(&format!("<{}", n1)) || n1 == "*" { sels.push((vec![St { name: n1, nth: None }, St { name: n2, nth: t2 }], vec![c])); } } } } }
+        for (steps, combs) in &sels {
+            let mut css = String::new();
+            for (i, s) in steps.iter().enumerate() { css.push_str(s.name); if let Some((a, b)) = s.nth { css.push_str(&format!(":nth-child({}n+{})", a, b)); } if i < combs.len() { css.push_str(if combs[i] == '>' { " > " } else { " " }); } }
+            let input = format!("css={}{{color:#ff0000;}} html={}", css, d);
+            rep.case(&input);
+            // reference: a token is red iff some ancestor-or-self element of its text node is matched
+            let mut want: Vec<(String, bool)> = vec![];
+            for (path, toks) in &elems { let red = (2..=path.len()).any(|l| sel_ok(steps, combs, &path[..l])); for t in toks { want.push((t.clone(), red)); } }
+            let (c2, h2) = (format!("{}{{color:#ff0000;}}", css), d.to_string());
+            let lines = match panic::catch_unwind(move || config::rich().add_css(&c2).map(|c| c.lines_from_read(h2.as_bytes(), 200))) { Ok(Ok(Ok(l))) => l, Ok(_) => continue, Err(_) => { rep.found(&input, "panic"); continue; } };
+            let mut got = std::collections::HashMap::new();
+            for l in &lines { for ts in l.tagged_strings() {
+                let red = ts.tag.iter().any(|a| matches!(a, RichAnnotation::Colour(c) if c.r == 255 && c.g == 0 && c.b == 0));
+                for w in ts.s.split_whitespace() { got.insert(w.to_string(), red); }
+            }}
+            for (tok, red) in &want {
+                match got.get(tok) {
+                    Some(g) if g == red => {}
+                    Some(g) => { rep.found(&input, &format!("token {:?}: coloured={} but the reference matcher says {}", tok, g, red)); break; }
+                    None => {}
+                }
+            }
+        }
+    }
+    rep.finish();
+}
+
+// ------------------------------------------------------------------------------------------------------------------------------
 // Generic documents (C02, C03, C11, C12, C16-trivial): width bound, text preserved in order, overflow option.
 fn gen_inline(r: &mut Lcg, tok: &mut u32, depth: u32) -> String {
     let mut s = String::new();
@@ -1170,6 +1302,10 @@ fn c03_docs() -> Vec<(&'static str, &'static str)> {
         // elements whose content the parser hands over as one raw text node are body text like any other
         ("<p>k1</p><noscript>k2</noscript><iframe>k3</iframe><noembed>k4</noembed><noframes>k5</noframes><xmp>k6</xmp><p>k7</p>", "k1k2k3k4k5k6k7"),
         ("<table><tr><td>k1<noscript>k2</noscript></td><td><iframe>k3</iframe></td></tr></table>", "k1k2k3"),
+        // row groups are rendered in source order, whatever their kind
+        ("<table><tfoot><tr><td>k1</td></tr></tfoot><tbody><tr><td>k2</td></tr></tbody></table>", "k1k2"),
+        ("<table><tbody><tr><td>k1</td></tr></tbody><thead><tr><th>k2</th></tr></thead></table>", "k1k2"),
+        ("<table><thead><tr><th>k1</th></tr></thead><tfoot><tr><td>k2</td></tr></tfoot><tbody><tr><td>k3</td></tr></tbody><tr><td>k4</td></tr><thead><tr><th>k5</th></tr></thead></table>", "k1k2k3k4k5"),
     ]
 }
 pub fn c03_elements() {
@@ -1472,7 +1608,7 @@ fn expand_tabs(s: &str) -> String {
 pub fn bnd_c12() {
     use unicode_width::UnicodeWidthStr;
     let nblk = if thorough() { 1500u32 } else { 300u32 };
-    let mut rep = Report::new("bnd_c12", &format!("{} seeded <pre> blocks of 1..6 source lines (words, runs of 1..5 spaces, tabs, leading and trailing spaces, empty interior lines, wide characters; line breaks \
+    let mut rep = Report::new("bnd_c12", &format!("{} seeded <pre> blocks of 1..6 source lines (words, runs of 1..5 spaces, tabs, leading and trailing spaces, empty and spaces-only interior lines, wide characters; line breaks \
         written as newline or <br>; sometimes the first word after leading white space inside a <span>; optionally inside a list item or quote), widths 1..=40: when every expanded source line fits the available width the block is reproduced line for line \
         (tabs to 8-column stops, interior blank lines kept, trailing spaces removed); otherwise every output line is within the width and the non-space characters are preserved in order; rich output: no continuation tag when everything fits; 27 single-line blocks whose first word is cut at the right edge (widths 6..=14, plain / in a list item / in a quote): first output line tagged preformatted, second continuation", nblk));
     let mut r = Lcg(0xbb67ae8584caa73b ^ seed());
@@ -1481,7 +1617,7 @@ pub fn bnd_c12() {
         let mut src: Vec<String> = vec![];
         for li in 0..nl {
             let mut s = String::new();
-            if li > 0 && li + 1 < nl && r.below(6) == 0 { src.push(s); continue; }     // interior blank line
+            if li > 0 && li + 1 < nl && r.below(5) == 0 { if r.below(2) == 0 { for _ in 0..1 + r.below(4) { s.push(' '); } } src.push(s); continue; }     // interior blank line: empty, or made of spaces only
             for k in 0..1 + r.below(4) {
                 if k > 0 || r.below(4) == 0 { match r.below(6) { 0 => s.push('\t'), 1 => { for _ in 0..1 + r.below(3) { s.push(' '); } s.push('\t'); } _ => { for _ in 0..1 + r.below(5) { s.push(' '); } } } }
                 if r.below(7) == 0 { for _ in 0..1 + r.below(4) { s.push(['\u{4e2d}', '\u{6587}', '\u{6f22}', '\u{5b57}'][r.below(4) as usize]); } } else { for _ in 0..1 + r.below(6) { s.push((b'a' + r.below(26) as u8) as char); } }
@@ -1590,7 +1726,7 @@ pub fn bnd_c15() {
         else {
             html.push_str("<table>");
             for _ in 0..1 + r.below(3) { html.push_str("<tr>"); for _ in 0..2 { tok += 1; if r.below(2) == 0 { html.push_str(&format!("<td>c{} <a href=\"http://h/{}\">link{}</a> t</td>", tok, tok, tok)); } else if r.below(3) == 0 { html.push_str(&format!("<td>cell{} with a much longer run of words than any width used here so that estimates exceed the width</td>", tok)); } else { html.push_str(&format!("<td>cell{} words here</td>", tok)); } } html.push_str("</tr>"); }
-            html.push_str("</table><p>after <a href=\"u\">l</a></p>");
+            html.push_str("</table><p>after <a href=\"u\">l</a> <a href=\"v\nw\tx\">m</a></p>");
         }
         // blank-only content in front of the first block (of the document, of a cell)
         if i % 5 == 0 { html = format!("<br>{}", html); }
@@ -1620,6 +1756,9 @@ pub fn bnd_c15() {
                 let body = |s: &str| -> String { s.lines().take_while(|l| !l.starts_with("[1]:")).collect::<Vec<_>>().join("\n") };
                 let notes = |s: &str| -> String { s.lines().skip_while(|l| !l.starts_with("[1]:")).flat_map(|l| l.chars()).filter(|c| !c.is_whitespace()).collect() };
                 if body(&a) != body(&b) || notes(&a) != notes(&b) { rep.found(&input, &format!("no_link_wrapping changed more than the line breaks of the footnote list: {:?} vs {:?}", b, a)); }
+                // when no footnote had to be wrapped (every line of the list is one whole entry) the option does not apply: same bytes
+                let list: Vec<&str> = a.lines().skip_while(|l| !l.starts_with("[1]:")).collect();
+                if !list.is_empty() && list.iter().enumerate().all(|(k, l)| l.starts_with(&format!("[{}]: ", k + 1))) && a != b { rep.found(&input, &format!("no_link_wrapping changed a footnote list in which nothing is wrapped: {:?} vs {:?}", b, a)); }
             }
             if !html.contains("<ul") && !html.contains("<ol") && !html.contains("<blockquote") && !html.contains("<dl") && !html.contains("<table") && !html.contains("<h") {
                 for k in [1usize, 2, 6] { if let Some(o) = run(&|c| c.min_wrap_width(k)) { if o != base { rep.found(&input, &format!("min_wrap_width({}) changed a document without nested blocks: {:?} vs {:?}", k, o, base)); } } }
